@@ -19,7 +19,7 @@ func init() {
 		run:   runC10,
 		decided: "absence of the three mechanisms by which one process can produce different bytes from the same inputs: (1) every range over a Go map in lang+cli is order-insensitive (its body only stores into another map under the ranged key, or collects the keys into a slice that is sorted by the total string order before any other use); (2) no package-level variable is written after initialisation except the four lazily built prototype singletons, each stored only inside its own accessor under `== nil`, and no other package-level variable has its address taken; cells of the process-global prototype tables are never handed out or written (C15/R1); (3) no function of the interpreter calls clock, random, environment or scheduling APIs or starts a goroutine." +
 			" No package-level variable holding a reference to mutable memory is ever handed out (returned, stored, passed on) except the prototype singletons by their accessors." +
-			" Evaluation writes only the documented interpreter state; nothing outside the parser stores into a syntax-tree node.",
+			" Evaluation writes only the documented interpreter state; nothing outside the parser stores into a syntax-tree node. The closures kept by the lazily built prototype singletons write no captured variable.",
 		notDecided: "determinism of the trusted libraries (encoding/json sorts object keys: cited, not checked).",
 	})
 }
@@ -424,6 +424,68 @@ func c10R2(c *Ctx) {
 		} else {
 			c.ok("R2", key, p.Pos(g.Pos()), "never handed out")
 		}
+	}
+	// the closures a lazily built singleton keeps (the prototype methods) live as long as the process:
+	// a variable they capture and write is process-level state just like a package-level variable
+	{
+		nClos := 0
+		for _, fn := range p.Funcs {
+			if p.inTestFile(fn) || fn.Parent() != nil || !p.InModule(fn) {
+				continue
+			}
+			storesGlobal := false
+			allInstrs(fn, func(in ssa.Instruction) {
+				if st, ok := in.(*ssa.Store); ok {
+					if _, isG := st.Addr.(*ssa.Global); isG && !(fn.Name() == "init") {
+						storesGlobal = true
+					}
+				}
+			})
+			if !storesGlobal {
+				continue
+			}
+			var walk func(f *ssa.Function)
+			walk = func(f *ssa.Function) {
+				for _, a := range f.AnonFuncs {
+					nClos++
+					allInstrs(a, func(in ssa.Instruction) {
+						var addr ssa.Value
+						switch y := in.(type) {
+						case *ssa.Store:
+							addr = y.Addr
+						case *ssa.MapUpdate:
+							addr = y.Map
+						default:
+							return
+						}
+						root := addr
+						for {
+							switch y := root.(type) {
+							case *ssa.FieldAddr:
+								root = y.X
+								continue
+							case *ssa.IndexAddr:
+								root = y.X
+								continue
+							case *ssa.UnOp:
+								if y.Op == token.MUL {
+									if _, isFV := y.X.(*ssa.FreeVar); isFV {
+										root = y.X
+									}
+								}
+							}
+							break
+						}
+						if fv, ok := root.(*ssa.FreeVar); ok {
+							c.violated("R2", "singleton-closure-state "+shortName(a)+": "+fv.Name(), p.InstrPos(in), "a closure kept by the process-wide singleton built in "+shortName(fn)+" writes the captured variable `"+fv.Name()+"`: the variable lives as long as the process, so what one call (or one run) leaves in it is seen by every later one")
+						}
+					})
+					walk(a)
+				}
+			}
+			walk(fn)
+		}
+		c.check(nClos >= 10, "R2", "singleton-closures", "", fmt.Sprintf("%d closures kept by lazily built singletons write no captured variable", nClos), fmt.Sprintf("only %d closures of lazily built singletons found, 16 confirmed by hand", nClos))
 	}
 	if len(globals) < 10 {
 		c.undecided("R2", "instance-floor", "", fmt.Sprintf("%d package-level variables found, 12 confirmed by hand", len(globals)))
